@@ -174,11 +174,16 @@ def gen_runs(rng, tmpdir, n, profile, thorough=False, mtype="STANDARD"):
             definition = g.machine()
             worker = cp.Worker(rng.randrange(10 ** 6), failures=0.0)
             k = rng.choice([1, 1, 2])
-        else:
+        elif profile == "fanout_fail":
             g = cp.Gen(rng, fanout=True, max_depth=1)
             definition = g.machine()
             worker = cp.Worker(rng.randrange(10 ** 6), failures=0.3)
             k = 1
+        else:       # fanout_fail_nested
+            g = cp.Gen(rng, fanout=True, max_depth=3 if thorough else 2)
+            definition = g.machine()
+            worker = cp.Worker(rng.randrange(10 ** 6), failures=0.25)
+            k = rng.choice([1, 1, 2])
         inputs = []
         for _ in range(k):
             d = json.loads(json.dumps(cp.INPUT))
